@@ -30,11 +30,14 @@ def isDig (c : Char) : Bool := 48 ≤ c.toNat && c.toNat ≤ 57
 /-- value of a digit character -/
 def dval (c : Char) : Nat := c.toNat - 48
 
-/-- last decimal digit of `k` as a character -/
-def dch (k : Nat) : Char :=
-  match k % 10 with
+/-- the digit character of `r < 10` -/
+def dchR (r : Nat) : Char :=
+  match r with
   | 0 => '0' | 1 => '1' | 2 => '2' | 3 => '3' | 4 => '4'
   | 5 => '5' | 6 => '6' | 7 => '7' | 8 => '8' | _ => '9'
+
+/-- last decimal digit of `k` as a character -/
+def dch (k : Nat) : Char := dchR (k % 10)
 
 /-- `f'{n:02d}'` for `n < 100` (also what `strftime('%m %d %H %M %S')` gives) -/
 def pad2 (n : Nat) : Str := [dch (n / 10), dch n]
@@ -144,8 +147,10 @@ def num2 (s : Str) : Option (Nat × Str) :=
   | ([], _) => none
   | (ds, r) => some (digitsVal ds, r)
 
-/-- `[0-9]+` -/
-def spanDigs (s : Str) : Str × Str := s.span isDig
+/-- `[0-9]+` greedy: the digits and the rest -/
+def spanDigs : Str → Str × Str
+  | [] => ([], [])
+  | c :: r => if isDig c then ((spanDigs r).1.cons c, (spanDigs r).2) else ([], c :: r)
 
 /-- `(\.([0-9]+))?` → is the microsecond non-zero, rest.
 `int(float("0." + digits) * 1e6) ≠ 0` ⇔ one of the first six digits is not `0`
@@ -240,7 +245,10 @@ def parseDate (s : Str) : Option Bits :=
 def since : Str := ['s', 'i', 'n', 'c', 'e']
 
 def dropWs (s : Str) : Str := s.dropWhile isWs
-def token (s : Str) : Str × Str := s.span (fun c => !isWs c)
+/-- the leading run of non-blank characters and the rest -/
+def token : Str → Str × Str
+  | [] => ([], [])
+  | c :: r => if isWs c then ([], c :: r) else ((token r).1.cons c, (token r).2)
 /-- `str.strip()` of a string that has no leading whitespace -/
 def stripR (s : Str) : Str := (s.reverse.dropWhile isWs).reverse
 
